@@ -18,6 +18,7 @@ package fieldmask
 
 import (
 	"encoding/json"
+	"errors"
 	"fmt"
 	"io"
 	"math"
@@ -91,11 +92,12 @@ func (v pathValue) Int() int {
 	return v.iv
 }
 
-func (v pathValue) Int32() int32 {
+// Int32 returns the value as int32; ok is false if it doesn't fit
+func (v pathValue) Int32() (ret int32, ok bool) {
 	if v.iv > math.MaxInt32 || v.iv < math.MinInt32 {
-		panic("integer overflow")
+		return 0, false
 	}
-	return int32(v.iv)
+	return int32(v.iv), true
 }
 
 type pathToken struct {
@@ -116,6 +118,8 @@ func (p pathToken) Err() error {
 	switch p.typ {
 	case pathTypeEOF:
 		return io.EOF
+	case pathTypeERR:
+		return errors.New(p.val.Str())
 	default:
 		return nil
 	}
@@ -160,16 +164,16 @@ func newPathToken(typ pathType, val string, s, e int) pathToken {
 	switch typ {
 	case pathTypeEOF:
 		return pathToken{typ: typ}
-	case pathTypeStr, pathTypeAny, pathTypeElem, pathTypeField, pathTypeIndexL, pathTypeIndexR, pathTypeLitStr, pathTypeMapR, pathTypeMapL, pathTypeRoot:
+	case pathTypeStr, pathTypeAny, pathTypeElem, pathTypeField, pathTypeIndexL, pathTypeIndexR, pathTypeLitStr, pathTypeMapR, pathTypeMapL, pathTypeRoot, pathTypeERR:
 		return pathToken{typ: typ, val: newPathValueStr(val), loc: [2]int{s, e}}
 	case pathTypeLitInt:
 		i, err := strconv.Atoi(val)
 		if err != nil {
-			panic(err)
+			return pathToken{typ: pathTypeERR, val: newPathValueStr("invalid integer " + val), loc: [2]int{s, e}}
 		}
 		return pathToken{typ: typ, val: newPathValueInt(i), loc: [2]int{s, e}}
 	default:
-		panic("unspported pathType " + val)
+		return pathToken{typ: pathTypeERR, val: newPathValueStr("unsupported pathType " + val), loc: [2]int{s, e}}
 	}
 }
 
@@ -230,6 +234,11 @@ func (p *pathIterator) Next() pathToken {
 	default:
 		p.Unwind(s)
 		val, isInt := p.lit()
+		if val == "" {
+			// a character that can't start a literal (such as a backslash): consume it, or the iterator never advances
+			p.pos = s + 1
+			return newPathToken(pathTypeERR, "unexpected character", s, p.Pos())
+		}
 		if isInt {
 			return newPathToken(pathTypeLitInt, val, s, p.Pos())
 		}
@@ -286,6 +295,10 @@ func (p *pathIterator) str() (string, error) {
 		}
 	}
 ret:
+	if i > len(p.src) {
+		// a backslash at the very end
+		i = len(p.src)
+	}
 	val := p.src[p.pos:i]
 	p.pos = i
 	val, err := strconv.Unquote(val)
@@ -347,7 +360,11 @@ func (cur *FieldMask) GetPath(desc *thrift_reflection.TypeDescriptor, path strin
 
 			var f *thrift_reflection.FieldDescriptor
 			if typ == pathTypeLitInt {
-				f = st.GetFieldById(tok.val.Int32())
+				id, ok := tok.val.Int32()
+				if !ok {
+					return nil, false
+				}
+				f = st.GetFieldById(id)
 				if f == nil {
 					return nil, false
 				}
@@ -361,6 +378,12 @@ func (cur *FieldMask) GetPath(desc *thrift_reflection.TypeDescriptor, path strin
 				if !cur.All() {
 					return nil, false
 				}
+				// NOTICE: for *, just pick first field desc for next loop (same as addPath)
+				fs := st.GetFields()
+				if len(fs) == 0 || fs[0].GetType() == nil {
+					return nil, false
+				}
+				f = fs[0]
 			} else {
 				return nil, false
 			}
